@@ -9,14 +9,21 @@ from ir import Inst, Arg, Const, Null, GlobalRef, CExpr, strip_casts
 INF = 99
 
 
-def item_param(f):
-    """(index, entry depth) of the item parameter: depth 0 for cbor_item_t*, 1 for cbor_item_t**"""
+def item_params(f):
+    """[(index, entry depth)] of the item parameters: depth 0 for cbor_item_t*, 1 for cbor_item_t**"""
+    out = []
     for i, p in enumerate(f.params):
         if p["type"] == "%struct.cbor_item_t*":
-            return i, 0
-        if p["type"] == "%struct.cbor_item_t**":
-            return i, 1
-    return None, None
+            out.append((i, 0))
+        elif p["type"] == "%struct.cbor_item_t**":
+            out.append((i, 1))
+    return out
+
+
+def item_param(f):
+    """the first item parameter (index, entry depth), or (None, None)"""
+    ps = item_params(f)
+    return ps[0] if ps else (None, None)
 
 
 class Depth:
@@ -38,6 +45,18 @@ class Depth:
         if v.op in ("getelementptr", "bitcast"):
             return self.load_depth(f, v.operands[0], pi, seen)
         if v.op == "load":
+            from ir import apath
+            root, steps = apath(v.operands[0])
+            if root[0] == "inst" and f.insts[root[1]].op == "alloca" and ("load",) not in steps:
+                # a local (e.g. a by-value struct parameter spilled to the frame): not a level of the item tree -
+                # the value is whatever was stored into that cell
+                ds = []
+                for s_ in f.all_insts():
+                    if s_.op == "store" and apath(s_.operands[1]) == (root, steps):
+                        d = self.load_depth(f, s_.operands[0], pi, seen)
+                        if d is not None:
+                            ds.append(d)
+                return min(ds) if ds else None
             d = self.load_depth(f, v.operands[0], pi, seen)
             return None if d is None else d + 1
         if v.op in ("phi", "select"):
@@ -85,35 +104,52 @@ def check_sccs(prog, eff):
         if len(comp) == 1 and comp[0] not in eff.summ[comp[0]]["callees"]:
             continue
         cs = set(comp)
-        edges = []
-        for name in comp:
-            f = prog.funcs[name]
-            pi, d0 = item_param(f)
-            for c in f.calls():
-                if c.callee in cs:
-                    g = prog.funcs[c.callee]
-                    gi, g0 = item_param(g)
-                    label, detail = "same", ""
-                    if pi is None or gi is None:
-                        label, detail = "unknown", "no item parameter"
-                    else:
-                        d = D.load_depth(f, c.operands[gi], pi)
-                        if d is None:
-                            label, detail = "unknown", "argument does not derive from the caller's item"
-                        elif d + g0 > d0:
-                            label, detail = "child", "item argument is %d load(s) deeper" % (d + g0 - d0)
-                    if label == "unknown":
-                        # recursion driven by the decoding stack: the call is preceded, in this function, by a pop of a frame
-                        pops = [p_ for p_ in f.calls("_cbor_stack_pop") if f.dominates(p_, c)]
-                        if pops and not any(True for _ in f.calls("_cbor_stack_push")):
-                            label, detail = "pops", "preceded by _cbor_stack_pop at %s" % pops[0].loc()
-                    edges.append((name, c.callee, c, label, detail))
-        # cycle detection on non-descending edges
-        adj = {}
-        for a, b, c, label, _ in edges:
-            if label not in ("child", "pops"):
-                adj.setdefault(a, []).append((b, c))
-        cyc = _find_cycle(adj, comp)
+        # the measure: one item parameter per function (sigma); every cycle must descend for ONE consistent choice.
+        # Functions with several item parameters (a helper taking the container under construction and the source
+        # element) are tried with each.
+        import itertools
+        cands = [item_params(prog.funcs[name]) or [(None, None)] for name in comp]
+        total = 1
+        for c_ in cands:
+            total *= len(c_)
+        if total > 256:
+            cands = [c_[:1] for c_ in cands]
+        best = None
+        for choice in itertools.product(*cands):
+            sigma = dict(zip(comp, choice))
+            edges = []
+            for name in comp:
+                f = prog.funcs[name]
+                pi, d0 = sigma[name]
+                for c in f.calls():
+                    if c.callee in cs:
+                        gi, g0 = sigma[c.callee]
+                        label, detail = "same", ""
+                        if pi is None or gi is None:
+                            label, detail = "unknown", "no item parameter"
+                        else:
+                            d = D.load_depth(f, c.operands[gi], pi)
+                            if d is None:
+                                label, detail = "unknown", "argument does not derive from the caller's item"
+                            elif d + g0 > d0:
+                                label, detail = "child", "item argument is %d load(s) deeper" % (d + g0 - d0)
+                        if label == "unknown":
+                            # recursion driven by the decoding stack: the call is preceded, in this function, by a pop of a frame
+                            pops = [p_ for p_ in f.calls("_cbor_stack_pop") if f.dominates(p_, c)]
+                            if pops and not any(True for _ in f.calls("_cbor_stack_push")):
+                                label, detail = "pops", "preceded by _cbor_stack_pop at %s" % pops[0].loc()
+                        edges.append((name, c.callee, c, label, detail))
+            # cycle detection on non-descending edges
+            adj = {}
+            for a, b, c, label, _ in edges:
+                if label not in ("child", "pops"):
+                    adj.setdefault(a, []).append((b, c))
+            cyc = _find_cycle(adj, comp)
+            if best is None or (cyc is None and best[1] is not None):
+                best = (edges, cyc)
+            if cyc is None:
+                break
+        edges, cyc = best
         dyn = []
         for name in comp:
             for i in prog.funcs[name].all_insts():
